@@ -296,7 +296,13 @@ def rule_ep_restore(ctx):
         if g:
             cons = C.constraints_for(ix, b, sym, sb)
             extra = [(c[0][:60], sorted(map(str, c[1]))) for c in cons if c[2] != g[0]]
-            always = mir.EXIT not in b.reachable_from(0, removed={g[0]}, include_start=True)
+            if key == UNMAKE:
+                # `match history.last() { Some(r) if r.flag => .. }`: that the record exists is part of the same test
+                # (an empty history restores None, exactly like is_some_and on the Option)
+                extra = [x for x in extra if not (x[0].startswith("discr(") and "::last(" in x[0] and "history" in x[0] and x[1] == ["Some"])]
+            # every path assigns the field, and neither assignment can be followed by the other
+            always = (mir.EXIT not in b.reachable_from(0, removed={sb, nones[0]}, include_start=True)
+                      and nones[0] not in b.reachable_from(sb) and sb not in b.reachable_from(nones[0]))
             ctx.check(not extra and always, "%s:ep-iff-double-push" % key, "nothing but the double-push flag decides between Some(file) and None, on every path", b.where(sb),
                       bad_what="the en-passant restore in %s additionally depends on %s" % (C.short(key), extra))
         if g:
